@@ -283,7 +283,7 @@ fn handwritten() -> Vec<(&'static str, String)> {
 
 pub fn bounds(tier: Tier) -> Value {
     match tier {
-        Tier::Quick => json!({"handwritten_programs": 30, "generated_block_programs": "1-2 blocks, 3 answer tapes", "horizon_command_entries": 14, "setters": ["command itself", "second thread"]}),
+        Tier::Quick => json!({"handwritten_programs": 30, "generated_block_programs": "1-2 blocks, 3 answer tapes", "horizon_command_entries": 20, "setters": ["command itself", "second thread"]}),
         Tier::Thorough => json!({"handwritten_programs": 30, "generated_block_programs": "1-3 blocks, 4 answer tapes", "horizon_command_entries": 40, "setters": ["command itself", "second thread"]}),
     }
 }
@@ -391,7 +391,7 @@ pub fn worker(w: &mut Worker) {
     let tier = w.tier;
     w.set_case_limit_ms(30_000);
     let rig = Rig::new();
-    let horizon = tier.pick(14usize, 40usize);
+    let horizon = tier.pick(20usize, 40usize);
     for (name, text) in handwritten() {
         if w.take() {
             check_program(w, &rig, name, &text, &[], horizon);
